@@ -190,6 +190,7 @@ func runC04(c *Collector, r *Rng, thorough bool) {
 	c04SignedUnderProtectedAlg(c, r)
 	c04DecodedTextAlg(c)
 	c04SharedSignerHeaders(c)
+	c04DecodedSmallAlgs(c)
 }
 
 // c04Reuse: one message object signed, encoded, then re-signed under another algorithm (key rotation: the signature
@@ -560,8 +561,14 @@ func c04Sign(c *Collector, class, st string, h cose.Headers, ext []byte, sa cose
 			// SignHashEnvelope builds the protected bucket itself: caller-supplied raw bytes play no part
 			key += "/hashenvelope"
 		} else if rawGiven && len(h.RawProtected) > 0 {
-			// caller-supplied raw protected bytes are signed as they are; their alg is never consulted
-			key = "C04/raw-protected-alg-not-consulted"
+			// caller-supplied raw protected bytes are signed as they are; their alg is never consulted (known finding:
+			// the typed map, or the external data, decides). One case is outside that finding: no external data and no
+			// alg in the typed map either - nothing names an algorithm, the library refuses, and must go on refusing
+			if gate == "absent" && len(ext) == 0 {
+				key = "C04/raw-protected-signed-without-any-alg"
+			} else {
+				key = "C04/raw-protected-alg-not-consulted"
+			}
 		}
 		c.Fail(key, desc, rep)
 	}
@@ -870,6 +877,88 @@ func c04SharedSignerHeaders(c *Collector) {
 					if !present || !isInt || cose.Algorithm(wa) != sp.alg {
 						c.Fail("C04/signed-under-other-alg", fmt.Sprintf("signer %d (algorithm %d) was handed a structure whose signer protected bytes %x name alg %d (present=%v): Sign returned %v", j, sp.alg, tbsElement(call, 2), wa, present, err), rep)
 					}
+				}
+			}
+		}
+	}
+}
+
+// c04DecodedSmallAlgs: decoded structures whose protected bucket is exactly {1: a} for every a in -40 .. 40 and around
+// the one-octet / two-octet boundaries (non-negative identifiers exist: HMAC, AES, private use): a key reporting a is
+// consulted, a key reporting -1-a (the same argument under the other integer major type) or any neighbour is refused
+// with ErrAlgorithmMismatch and not invoked.
+func c04DecodedSmallAlgs(c *Collector) {
+	var algs []int64
+	for a := int64(-40); a <= 40; a++ {
+		algs = append(algs, a)
+	}
+	algs = append(algs, 255, 256, -256, -257, 65535, -65536)
+	for _, a := range algs {
+		if a == 0 {
+			continue // the reserved value is this library's "no algorithm"
+		}
+		pb := wBstr(wMap(-1, wInt(1, -1), wInt(a, -1)).Ser(), -1)
+		for _, kind := range []string{"COSE_Sign1", "COSE_Sign1 untagged", "COSE_Signature", "COSE_Countersignature", "COSE_Sign signer"} {
+			var verify func(vf *spyVerifier) error
+			var data []byte
+			switch kind {
+			case "COSE_Sign1", "COSE_Sign1 untagged":
+				body := wArr(-1, pb.Clone(), wMap(-1), wBstr([]byte("p"), -1), wBstr([]byte{1}, -1))
+				var m cose.Sign1Message
+				var err error
+				if kind == "COSE_Sign1" {
+					data = wTag(18, -1, body).Ser()
+					err = m.UnmarshalCBOR(data)
+				} else {
+					data = body.Ser()
+					err = (*cose.UntaggedSign1Message)(&m).UnmarshalCBOR(data)
+				}
+				if err != nil {
+					continue
+				}
+				verify = func(vf *spyVerifier) error { return m.Verify(nil, vf) }
+			case "COSE_Signature", "COSE_Countersignature":
+				data = wArr(-1, pb.Clone(), wMap(-1), wBstr([]byte{1}, -1)).Ser()
+				if kind == "COSE_Signature" {
+					var sg cose.Signature
+					if sg.UnmarshalCBOR(data) != nil {
+						continue
+					}
+					verify = func(vf *spyVerifier) error { return sg.Verify(vf, []byte{0x40}, []byte("p"), nil) }
+				} else {
+					var cs cose.Countersignature
+					if cs.UnmarshalCBOR(data) != nil {
+						continue
+					}
+					parent := &cose.Sign1Message{Headers: cose.Headers{Protected: cose.ProtectedHeader{}}, Payload: []byte("p"), Signature: []byte{1}}
+					verify = func(vf *spyVerifier) error { return cs.Verify(vf, parent, nil) }
+				}
+			default:
+				data = wTag(98, -1, wArr(-1, wBstr(nil, -1), wMap(-1), wBstr([]byte("p"), -1), wArr(-1, wArr(-1, pb.Clone(), wMap(-1), wBstr([]byte{1}, -1))))).Ser()
+				var sm cose.SignMessage
+				if sm.UnmarshalCBOR(data) != nil {
+					continue
+				}
+				verify = func(vf *spyVerifier) error { return sm.Verify(nil, vf) }
+			}
+			for _, va := range []int64{a, -1 - a, a + 1, a - 1, -a} {
+				if va == 0 {
+					continue
+				}
+				vf := &spyVerifier{alg: cose.Algorithm(va)}
+				var err error
+				if p, _ := protect(func() { err = verify(vf) }); p {
+					c.Fail("C04/panic", "Verify panicked", map[string]any{"data": hx(data)})
+					continue
+				}
+				c.Eval("decoded-small-alg/"+kind, fmt.Sprint(a, va), true)
+				rep := map[string]any{"data": hx(data), "protected_alg": a, "key_alg": va, "structure": kind}
+				if va == a {
+					if len(vf.calls) != 1 || err != nil {
+						c.Fail("C04/decoded-not-called", fmt.Sprintf("%s whose protected bytes say alg %d: a key of that algorithm was not consulted (%v)", kind, a, err), rep)
+					}
+				} else if len(vf.calls) > 0 || !errors.Is(err, cose.ErrAlgorithmMismatch) {
+					c.Fail("C04/decoded-mismatch", fmt.Sprintf("%s whose protected bytes say alg %d: a key reporting %d was invoked %d times, Verify returned %v", kind, a, va, len(vf.calls), err), rep)
 				}
 			}
 		}
